@@ -122,7 +122,7 @@ func (ra *roAnalysis) hasROFalse(fa *FnAnalysis, st *State, k int) bool {
 // escapeCond finds a fact  Pj == ronly  in the state (the `|| cf == ronly`
 // arm of setState's guard).
 func (ra *roAnalysis) escapeCond(st *State) *Term {
-	for _, f := range st.facts {
+	for _, f := range st.factList() {
 		if f.Kind != aTR || !f.Val || f.T.K != "B" || f.T.S != "==" {
 			continue
 		}
@@ -141,7 +141,7 @@ func (ra *roAnalysis) escapeCond(st *State) *Term {
 
 // initFalse: the state says the receiver handle is not initialised.
 func (ra *roAnalysis) initFalse(fa *FnAnalysis, st *State, k int) bool {
-	for _, f := range st.facts {
+	for _, f := range st.factList() {
 		if f.Kind == aNN && !f.Val {
 			// handle pointer is nil:  F(P(k),0) or F(L(P(k)),0)
 			t := f.T
